@@ -28,7 +28,8 @@ Known == {"nl.bsn", "nl.onderwijsnummer", "pl.nip", "pl.regon", "pt.nif", "dk.cv
           "in_.epic", "it.aic", "mc.tva", "nl.postcode", "nl.brin", "nl.identiteitskaartnummer", "no.kontonr", "pk.cnic",
           "ad.nrt", "bg.pnf", "do.ncf", "es.cae", "fi.ytunnus", "fr.nif", "gb.upn", "ie.vat", "pe.cui", "pt.cc", "ru.ogrn",
           "se.postnummer", "se.vat", "si.maticna", "sm.coe", "sv.nit", "th.moa",
-          "bg.egn", "cu.ni", "cz.rc", "sk.rc", "lt.asmens", "ro.cnp", "kr.rrn", "gr.amka", "is_.kennitala"}
+          "bg.egn", "cu.ni", "cz.rc", "sk.rc", "lt.asmens", "ro.cnp", "kr.rrn", "gr.amka", "is_.kennitala",
+          "es.cups", "es.nif", "es.referenciacatastral", "fr.nir", "in_.gstin", "si.emso", "tn.mf", "tw.ubn", "ua.rntrc", "us.ptin"}
 (* formats with further rules (dates, ranges) that are not transcribed: the checksum is only a NECESSARY condition *)
 Necessary == {"no.fodselsnummer", "fi.hetu", "ch.ssn", "lv.pvn", "pl.pesel", "ee.ik", "at.tin", "dk.cpr", "za.idnr"}
 
@@ -92,6 +93,19 @@ RcOk(c) == /\ IsDigits(c) /\ Len(c) \in {9, 10}
               IN /\ (Len(c) = 9 => year <= 1953)
                  /\ NRealDate(year, mth, dd)
                  /\ (Len(c) = 10 => (IF Before(year, mth, dd, 1985, 1, 1) THEN r % 10 ELSE r) = D(c[10]))
+EsDniOk(c) == /\ Len(c) = 9 /\ IsDigits(SubSeq(c, 1, 8))
+                       /\ c[9] = <<84, 82, 87, 65, 71, 77, 89, 70, 80, 68, 88, 66, 78, 74, 90, 83, 81, 86, 72, 76, 67, 75, 69>>[ModOf(SubSeq(c, 1, 8), 23) + 1]
+EsNieOk(c) == /\ Len(c) = 9 /\ c[1] \in {88, 89, 90} /\ IsDigits(SubSeq(c, 2, 8))
+                       /\ c[9] = DniLetters[ModOf(<<48 + (c[1] - 88)>> \o SubSeq(c, 2, 8), 23) + 1]
+EsCifOk(c) == /\ Len(c) = 9 /\ IsDigits(SubSeq(c, 2, 8)) /\ In(c[1], <<65, 66, 67, 68, 69, 70, 71, 72, 74, 78, 80, 81, 82, 83, 85, 86, 87>>)
+                       /\ LET cd == LuhnCheckDigit(SubSeq(c, 2, 8)) IN c[9] = 48 + cd \/ c[9] = <<74, 65, 66, 67, 68, 69, 70, 71, 72, 73>>[cd + 1]
+InPanOk(c) == /\ Len(c) = 10 /\ (\A i \in 1..5 : c[i] \in 65..90) /\ IsDigits(SubSeq(c, 6, 9)) /\ c[10] \in 65..90
+                        /\ In(c[4], <<65, 66, 67, 70, 71, 72, 76, 74, 80, 84, 75>>) /\ NumOf(c, 6, 9) # 0
+Luhn36Sum(c) == Sum(LAMBDA i : LET v == EicVal(c[i]) IN IF (Len(c) - i) % 2 = 1 THEN ((2 * v) \div 36) + ((2 * v) % 36) ELSE v, Len(c))
+CatVal(ch) == IF ch <= 57 THEN ch - 48 ELSE IF ch <= 78 THEN ch - 64 ELSE ch - 63       \* A = 1 .. N = 14, (N-tilde = 15), O = 16 .. Z = 27
+CatLetters == <<77, 81, 87, 69, 82, 84, 89, 85, 73, 79, 80, 65, 83, 68, 70, 71, 72, 74, 75, 76, 66, 90, 88>>
+CatCheck(eleven) == CatLetters[(Sum(LAMBDA i : <<13, 15, 12, 5, 4, 17, 9, 21, 3, 7, 1>>[i] * CatVal(eleven[i]), 11) % 23) + 1]
+CupsLetters == <<84, 82, 87, 65, 71, 77, 89, 70, 80, 68, 88, 66, 78, 74, 90, 83, 81, 86, 72, 76, 67, 75, 69>>
 EstonianCheck(c, n) ==        \* check digit over the first n digits: weights 1,2,..,9,1,.. and, when that gives 10, 3,4,..,9,1,2,..
   LET s1 == Sum(LAMBDA i : (((i - 1) % 9) + 1) * D(c[i]), n) % 11
       s2 == Sum(LAMBDA i : (((i + 1) % 9) + 1) * D(c[i]), n) % 11
@@ -110,8 +124,7 @@ AcceptN(m, c) ==
     [] m = "dk.cvr" -> Len(c) = 8 /\ IsDigits(c) /\ c[1] # 48 /\ W(c, <<2, 7, 6, 5, 4, 3, 2, 1>>) % 11 = 0
     [] m = "fi.alv" -> Len(c) = 8 /\ IsDigits(c) /\ W(c, <<7, 9, 10, 5, 8, 4, 2, 1>>) % 11 = 0
     [] m = "no.orgnr" -> Len(c) = 9 /\ IsDigits(c) /\ W(c, <<3, 2, 7, 6, 5, 4, 3, 2, 1>>) % 11 = 0
-    [] m = "es.dni" -> /\ Len(c) = 9 /\ IsDigits(SubSeq(c, 1, 8))
-                       /\ c[9] = <<84, 82, 87, 65, 71, 77, 89, 70, 80, 68, 88, 66, 78, 74, 90, 83, 81, 86, 72, 76, 67, 75, 69>>[ModOf(SubSeq(c, 1, 8), 23) + 1]
+    [] m = "es.dni" -> EsDniOk(c)
     [] m = "ee.kmkr" -> Len(c) = 9 /\ IsDigits(c) /\ W(c, <<3, 7, 1, 3, 7, 1, 3, 7, 1>>) % 10 = 0
     [] m = "mt.vat" -> Len(c) = 8 /\ IsDigits(c) /\ c[1] # 48 /\ W(c, <<3, 4, 6, 7, 8, 9, 10, 1>>) % 37 = 0
     [] m = "lu.tva" -> Len(c) = 8 /\ IsDigits(c) /\ NumOf(c, 1, 6) % 89 = NumOf(c, 7, 8)
@@ -221,10 +234,8 @@ AcceptN(m, c) ==
     [] m = "fi.veronumero" -> Len(c) = 12 /\ IsDigits(c)
     [] m = "eg.tn" -> Len(c) = 9 /\ IsDigits(c)
     [] m = "ma.ice" -> Len(c) = 15 /\ IsDigits(c) /\ ModOf(c, 97) = 0
-    [] m = "es.nie" -> /\ Len(c) = 9 /\ c[1] \in {88, 89, 90} /\ IsDigits(SubSeq(c, 2, 8))
-                       /\ c[9] = DniLetters[ModOf(<<48 + (c[1] - 88)>> \o SubSeq(c, 2, 8), 23) + 1]
-    [] m = "es.cif" -> /\ Len(c) = 9 /\ IsDigits(SubSeq(c, 2, 8)) /\ In(c[1], <<65, 66, 67, 68, 69, 70, 71, 72, 74, 78, 80, 81, 82, 83, 85, 86, 87>>)
-                       /\ LET cd == LuhnCheckDigit(SubSeq(c, 2, 8)) IN c[9] = 48 + cd \/ c[9] = <<74, 65, 66, 67, 68, 69, 70, 71, 72, 73>>[cd + 1]
+    [] m = "es.nie" -> EsNieOk(c)
+    [] m = "es.cif" -> EsCifOk(c)
     [] m = "gb.vat" ->
          CASE Len(c) = 5 -> /\ IsDigits(SubSeq(c, 3, 5))
                             /\ \/ SubSeq(c, 1, 2) = <<71, 68>> /\ NumOf(c, 3, 5) < 500
@@ -263,8 +274,7 @@ AcceptN(m, c) ==
     [] m = "fr.siret" -> /\ Len(c) = 14 /\ IsDigits(c) /\ SirenOk(SubSeq(c, 1, 9))
                          /\ IF NumOf(c, 1, 9) = 356000000 /\ ~(NumOf(c, 10, 14) = 48)
                             THEN DigitTotal(c) % 5 = 0 ELSE LuhnSum(c) % 10 = 0
-    [] m = "in_.pan" -> /\ Len(c) = 10 /\ (\A i \in 1..5 : c[i] \in 65..90) /\ IsDigits(SubSeq(c, 6, 9)) /\ c[10] \in 65..90
-                        /\ In(c[4], <<65, 66, 67, 70, 71, 72, 76, 74, 80, 84, 75>>) /\ NumOf(c, 6, 9) # 0
+    [] m = "in_.pan" -> InPanOk(c)
     [] m = "ke.pin" -> Len(c) = 11 /\ c[1] \in {65, 80} /\ IsDigits(SubSeq(c, 2, 10)) /\ c[11] \in 65..90
     [] m = "li.peid" -> Len(c) >= 4 /\ Len(c) <= 12 /\ IsDigits(c)
     [] m = "md.idno" -> Len(c) = 13 /\ IsDigits(c) /\ W(c, <<7, 3, 1, 7, 3, 1, 7, 3, 1, 7, 3, 1>>) % 10 = D(c[13])
@@ -414,6 +424,34 @@ AcceptN(m, c) ==
                               /\ LET dd == NumOf(c, 1, 2)
                                  IN NRealDate((IF c[10] = 57 THEN 1900 ELSE 2000) + NumOf(c, 5, 6), NumOf(c, 3, 4), IF dd >= 40 THEN dd - 40 ELSE dd)
                               /\ W(c, <<3, 2, 7, 6, 5, 4, 3, 2, 1, 0>>) % 11 = 0
+    [] m = "es.cups" -> /\ Len(c) \in {20, 22} /\ SubSeq(c, 1, 2) = <<69, 83>> /\ IsDigits(SubSeq(c, 3, 18))
+                        /\ (Len(c) = 22 => (c[21] \in 48..57 /\ In(c[22], <<70, 80, 82, 67, 88, 89, 90>>)))
+                        /\ LET n == ModOf(SubSeq(c, 3, 18), 529) IN c[19] = CupsLetters[(n \div 23) + 1] /\ c[20] = CupsLetters[(n % 23) + 1]
+    [] m = "es.nif" -> /\ Len(c) = 9 /\ IsDigits(SubSeq(c, 2, 8))
+                       /\ CASE c[1] \in {75, 76, 77} -> c[9] = DniLetters[ModOf(SubSeq(c, 2, 8), 23) + 1]
+                            [] c[1] \in 48..57 -> EsDniOk(c)
+                            [] c[1] \in {88, 89, 90} -> EsNieOk(c)
+                            [] OTHER -> EsCifOk(c)
+    [] m = "es.referenciacatastral" -> /\ Len(c) = 20 /\ (\A i \in 1..20 : (c[i] \in 48..57) \/ (c[i] \in 65..90))
+                                       /\ c[19] = CatCheck(SubSeq(c, 1, 7) \o SubSeq(c, 15, 18))
+                                       /\ c[20] = CatCheck(SubSeq(c, 8, 14) \o SubSeq(c, 15, 18))
+    [] m = "fr.nir" -> /\ Len(c) = 15 /\ IsDigits(SubSeq(c, 1, 5)) /\ IsDigits(SubSeq(c, 8, 15))
+                       /\ (IsDigits(SubSeq(c, 6, 7)) \/ SubSeq(c, 6, 7) \in {<<50, 65>>, <<50, 66>>})
+                       /\ LET dep == IF SubSeq(c, 6, 7) = <<50, 65>> THEN <<49, 57>> ELSE IF SubSeq(c, 6, 7) = <<50, 66>> THEN <<49, 56>> ELSE SubSeq(c, 6, 7)
+                          IN 97 - ModOf(SubSeq(c, 1, 5) \o dep \o SubSeq(c, 8, 13), 97) = NumOf(c, 14, 15)
+    [] m = "in_.gstin" -> /\ Len(c) = 15 /\ IsDigits(SubSeq(c, 1, 2)) /\ NumOf(c, 1, 2) \in 1..37
+                          /\ (\A i \in 13..15 : (c[i] \in 48..57) \/ (c[i] \in 65..90)) /\ c[13] # 48 /\ c[14] = 90
+                          /\ InPanOk(SubSeq(c, 3, 12)) /\ Luhn36Sum(c) % 36 = 0
+    [] m = "si.emso" -> /\ Len(c) = 13 /\ IsDigits(c)
+                        /\ LET yyy == NumOf(c, 5, 7) IN NRealDate((IF yyy < 800 THEN 2000 ELSE 1000) + yyy, NumOf(c, 3, 4), NumOf(c, 1, 2))
+                        /\ ((11 - (W(c, <<7, 6, 5, 4, 3, 2, 7, 6, 5, 4, 3, 2>>) % 11)) % 11) % 10 = D(c[13])
+    [] m = "tn.mf" -> /\ Len(c) \in {8, 13} /\ IsDigits(SubSeq(c, 1, 7)) /\ c[8] \in 65..90 /\ c[8] \notin {73, 79, 85}
+                      /\ (Len(c) = 13 => (/\ In(c[9], <<65, 80, 66, 68, 78>>) /\ In(c[10], <<77, 80, 67, 78, 69>>) /\ IsDigits(SubSeq(c, 11, 13))
+                                          /\ (NumOf(c, 11, 13) = 0 \/ c[10] = 69)))
+    [] m = "tw.ubn" -> /\ Len(c) = 8 /\ IsDigits(c)
+                       /\ LET cs == Sum(LAMBDA i : DigitSum(<<1, 2, 1, 2, 1, 2, 4, 1>>[i] * D(c[i])), 8) % 10 IN cs = 0 \/ (cs = 9 /\ c[7] = 55)
+    [] m = "ua.rntrc" -> Len(c) = 10 /\ IsDigits(c) /\ (W(c, <<10, 5, 7, 9, 4, 6, 10, 5, 7>>) % 11) % 10 = D(c[10])
+    [] m = "us.ptin" -> Len(c) = 9 /\ c[1] \in {80, 112} /\ IsDigits(SubSeq(c, 2, 9))
 
 (* checksum parts of formats with further rules *)
 NecessaryN(m, c) ==
